@@ -892,8 +892,8 @@ pub struct OpInfo {
     pub hdrs: Vec<&'static str>,
     pub custom_error: bool,
     pub body: Option<&'static str>,
-    /// the response body type is `Option<T>` for a referenceable `T`
-    pub opt_ref_resp: bool,
+    /// the response body type is `Option<T>` for a referenceable `T`: T's component name
+    pub opt_ref_resp: Option<&'static str>,
 }
 fn info(resp: Option<(&'static str, &'static str)>) -> OpInfo {
     OpInfo { resp, ..Default::default() }
@@ -915,8 +915,8 @@ impl OpInfo {
         self.custom_error = true;
         self
     }
-    fn on(mut self) -> Self {
-        self.opt_ref_resp = true;
+    fn on(mut self, component: &'static str) -> Self {
+        self.opt_ref_resp = Some(component);
         self
     }
     fn b(mut self, b: &'static str) -> Self {
@@ -984,7 +984,7 @@ pub fn build_api() -> (ApiDescription<Ctx>, Ctx, BTreeMap<String, OpInfo>) {
     reg!("r_ok_bool", r_ok::<bool>, Method::GET, JSON, "/r/ok/bool", info(OK_J));
     reg!("r_ok_f64", r_ok::<f64>, Method::GET, JSON, "/r/ok/f64", info(OK_J));
     reg!("r_ok_opt", r_ok::<Option<u32>>, Method::GET, JSON, "/r/ok/opt", info(OK_J));
-    reg!("r_ok_optra", r_ok::<Option<RA>>, Method::GET, JSON, "/r/ok/optra", info(OK_J).on());
+    reg!("r_ok_optra", r_ok::<Option<RA>>, Method::GET, JSON, "/r/ok/optra", info(OK_J).on("RA"));
     reg!("r_ok_vec", r_ok::<Vec<RB>>, Method::GET, JSON, "/r/ok/vec", info(OK_J));
     reg!("r_ok_map", r_ok::<BTreeMap<String, RA>>, Method::GET, JSON, "/r/ok/map", info(OK_J));
     reg!("r_created_rc", r_created::<RC>, Method::POST, JSON, "/r/created/rc", info(CREATED_J));
